@@ -816,7 +816,7 @@ def B2(prop, n):
     MUTANTS.append(dict(prop=prop, name=f"benign-agent-2:{prop}-{n}", patch=f"selftest/patches/bn2_{prop}_{n}.diff", rule=None, benign=True))
 
 
-for _p in ("C01", "C03", "C04", "C05", "C08", "C09", "C10", "C12", "C14", "C19", "C20"):
+for _p in ("C01", "C02", "C03", "C04", "C05", "C06", "C07", "C08", "C09", "C10", "C11", "C12", "C13", "C14", "C15", "C16", "C17", "C18", "C19", "C20"):
     for _n in range(1, 7):
         B2(_p, _n)
 for _n in range(1, 7):
